@@ -35,7 +35,7 @@ from pybrops.breed.op.ssel.SurvivorSelectionOperator import SurvivorSelectionOpe
 from pybrops.breed.op.log.Logbook import Logbook
 
 PROP = "C20"
-RUNS = {"quick": 24000, "thorough": 600000}
+RUNS = {"quick": 40000, "thorough": 600000}
 WALL = {"quick": 150, "thorough": 1500}
 RULE = ("scenario = 1-3 evolve() calls (nrep 0-4, ngen 0-4, loginit) on one programme object, a behaviour per fake "
         "operator (pure/mutate_container/mutate_objects/delkeys/same/stash), pre-initialised or via initop, and a crash "
